@@ -90,7 +90,14 @@ def main():
         VERIF_RUN = snap
         from concurrent.futures import ThreadPoolExecutor
         with ThreadPoolExecutor(jobs) as ex:
-            for part in ex.map(lambda d: one_scratch(d, props or (claimed if allc else [d.name.split("-")[0]]), tier), dirs):
+            def which(d):
+                if props:
+                    return props
+                f = d / "checks.txt"       # benign changes: the checks whose code the change touches
+                if f.exists():
+                    return f.read_text().split()
+                return claimed if allc else [d.name.split("-")[0]]
+            for part in ex.map(lambda d: one_scratch(d, which(d), tier), dirs):
                 results.update(part)
         dirs = []
         sh(f"rm -rf {snap}")
